@@ -356,6 +356,14 @@ fn sp() -> SyncParams {
 
 pub fn build(prop: &str, draws: &[u16], tier: Tier) -> Case {
     let mut s = Src::new(draws);
+    if prop == "C01" && s.chance(1, 16) {
+        // the reduction together with the exploration controls: decisions outside a frozen region
+        // are still fully explored (C19's region programs and reference)
+        let mut c = crate::props::c19::build_mode(&draws[1..], tier, Some(8));
+        c.prop = "C01".into();
+        c.family = "frozen-region".into();
+        return c;
+    }
     let extra = if tier == Tier::Thorough { 1 } else { 0 };
     let (family, prog): (&str, Program) = match prop {
         "C01" => match s.pick(11) {
@@ -451,6 +459,14 @@ pub fn build(prop: &str, draws: &[u16], tier: Tier) -> Case {
 }
 
 pub fn eval(case: &Case) -> Verdict {
+    if case.family == "frozen-region" {
+        let mut c = case.clone();
+        c.prop = "C19".into();
+        let mut v = crate::props::c19::eval(&c);
+        v.labels.retain(|l| !l.starts_with("mode_"));
+        v.label("frozen_region");
+        return v;
+    }
     let mut v = Verdict::pass();
     let e = match evaluate(case, &mut v) {
         Ok(e) => e,
